@@ -470,6 +470,12 @@ class AsgiValidator:
             run.complete = True
 
 
+# Zero-copy slices longer than this many bytes are not read into the body: the server model notes the slice in
+# run.zc_spans (index of the chunk, file position, length, read or not) and moves the file position as a real sendfile
+# loop would.  None = read everything (the default; checks that serve multi-gigabyte sparse files set it for their runs).
+ZC_SPARSE_LIMIT: Optional[int] = None
+
+
 def _read_zerocopy(run: AsgiRun, message: Dict[str, Any]) -> bytes:
     fd = message.get("file")
     try:
@@ -492,6 +498,12 @@ def _read_zerocopy(run: AsgiRun, message: Dict[str, Any]) -> bytes:
         remaining = count
     else:
         remaining = size - pos
+    spans = run.__dict__.setdefault("zc_spans", [])
+    if ZC_SPARSE_LIMIT is not None and remaining > ZC_SPARSE_LIMIT:
+        spans.append((len(run.chunks), pos, remaining, False))
+        os.lseek(fd, pos + remaining, os.SEEK_SET)
+        return b""
+    spans.append((len(run.chunks), pos, remaining, True))
     out = []
     while remaining > 0:
         data = os.read(fd, min(remaining, 1 << 20))
